@@ -22,6 +22,7 @@ from __future__ import annotations
 import concurrent.futures as cf
 import copy
 import json
+import os
 import random
 import shutil
 import tempfile
@@ -77,14 +78,15 @@ def L(v): return ['l', v]
 LIT_SRC = {'none': 'None', 'ellipsis': '...'}
 
 
-def lit_src(l):
+def lit_src(l, quote="'"):
     if isinstance(l, str):
         return LIT_SRC[l]
     if l[0] == 'b':
         return 'True' if l[1] == 'true' else 'False'
     if l[0] == 'i':
         return str(l[1])
-    return repr(l[1])
+    assert "'" not in l[1] and '"' not in l[1] and '\\' not in l[1]
+    return quote + l[1] + quote
 
 
 def render(e, quote="'") -> str:
@@ -102,7 +104,7 @@ def render(e, quote="'") -> str:
         r = render(e[2], quote)
         return render(e[1], quote) + ' | ' + (f'({r})' if e[2][0] == 'o' else r)
     if k == 'l':
-        return lit_src(e[1])
+        return lit_src(e[1], quote)
     if k == 'q':
         other = '"' if quote == "'" else "'"
         return quote + render(e[1], other) + quote
@@ -630,12 +632,12 @@ def run_real(progs: list, models: list, bear_every: int = 0) -> list:
     root = tempfile.mkdtemp(prefix='c07_')
     try:
         def one(i):
-            import os
             tmp = os.path.join(root, f'p{i}')
             os.mkdir(tmp)
             pl = payload_of(progs[i], models[i], tmp, bool(bear_every) and i % bear_every == 0)
             try:
-                return subproc_json('harness.impl.c07run', pl, timeout=600)
+                return subproc_json('harness.impl.c07run', pl, timeout=600,
+                                    env={'PYTHONDONTWRITEBYTECODE': '', 'PYTHONPYCACHEPREFIX': os.path.join(root, 'pyc')})
             except Exception as e:                                  # noqa: BLE001
                 return {'worker_error': str(e)[-2000:]}
         with cf.ThreadPoolExecutor(max_workers=16) as ex:
@@ -690,11 +692,11 @@ def expr_at(e, path):
     return e
 
 
-def scope_chain(stmts):
+def scope_chain(stmts, fid=None):
     """(chain of (kind, name, deco) from the module down to the def, the def statement)"""
     def find(sts, chain):
         for st in sts:
-            if st[0] == 'def':
+            if st[0] == 'def' and (fid is None or st[1] == fid):
                 return chain, st
             if st[0] == 'func':
                 r = find(st[3], chain + [('fn', st[1], False)])
@@ -708,7 +710,7 @@ def scope_chain(stmts):
     return find(stmts, [])
 
 
-def binds_of(stmts, name, chain_names):
+def binds_of(stmts, name, chain_names, fid=None):
     """where `name` is bound: list of (scope description relative to the def, 'pre'|'post')"""
     out = []
 
@@ -725,7 +727,7 @@ def binds_of(stmts, name, chain_names):
                     where = ('direct-' if dist == 0 else 'outer-') + chain[-1][0]
                 kind = 'class' if st[0] == 'cls' else ('alias-class' if st[2][0] == 'n' else 'alias-hint')
                 out.append((where, 'post' if seen_def[0] else 'pre', kind))
-            elif st[0] == 'def':
+            elif st[0] == 'def' and (fid is None or st[1] == fid):
                 seen_def[0] = True
             elif st[0] == 'func':
                 walk(st[3], chain + [('fn', st[1])], seen_def)
@@ -755,28 +757,6 @@ def probe_context(stmts, tag):
     return find(stmts, [])
 
 
-def deviation_key(prog, variant, tag, impl, spec) -> tuple[str, str]:
-    """canonical identity of a predicted deviation between implementation model and specification"""
-    chain, d = scope_chain(prog['stmts'])
-    dv = leaves_diff(impl, spec)
-    path, a, b = dv
-    e = expr_at(variant_expr(d[3], variant), path)
-    name = chain_root(e) if is_chain(e) else '?'
-    dotted = 'dotted' if e[0] == 'a' else 'bare'
-    chain_names = [(k, n) for k, n, _ in chain]
-    binds = binds_of(prog['stmts'], name, chain_names)
-    running = probe_context(prog['stmts'], tag) or []
-    lex = [n for _, n, _ in chain]
-    parent = 'module' if not lex else ('parent-running' if running[:len(lex)] == lex else
-                                      ('parent-returned' if running else 'all-returned'))
-    deco = 'class-decorated' if any(dc for _, _, dc in chain) else 'def-decorated'
-    kind = f'{a[0]}-instead-of-{b[0]}'
-    where = '+'.join(sorted({f'{w}/{t}/{k}' for w, t, k in binds})) or 'unbound'
-    place = '/'.join(k for k, _, _ in chain) or 'module'
-    key = f'C07:{kind}:{dotted}:{where}:in-{place}:{deco}:{parent}'
-    return key, name
-
-
 def cmp_vectors(actual, expected, free):
     """positions where the real verdict is not allowed by the expected one ('F' also allowed where the
     unresolvable leaf is not needed)"""
@@ -787,3 +767,613 @@ def cmp_vectors(actual, expected, free):
                 continue
             bad.append((d, i, a, e))
     return bad
+
+
+def probe_fid(stmts, tag):
+    for st in stmts:
+        if st[0] == 'probe' and st[1] == tag:
+            return st[2]
+        if st[0] == 'func':
+            r = probe_fid(st[3], tag)
+            if r is not None:
+                return r
+        if st[0] == 'class':
+            r = probe_fid(st[5], tag)
+            if r is not None:
+                return r
+    return None
+
+
+def crash_matches(real, model) -> bool:
+    """the statement the model says raises is the one that raises, with the modelled exception family"""
+    if real is None or model is None:
+        return real is None and model is None
+    ev = model['event']
+    if ev is not None and ev[0] == 'decorate':
+        # eval() failures inside the resolver are re-raised as the decoration-time forward-reference exception
+        return 'BeartypeDecorHintForwardRefException' in real['mro']
+    return model['kind'] in real['mro']
+
+
+def describe(prog, variant) -> str:
+    return finalize_src(render_program(prog['stmts'], variant), method_fids(prog['stmts']))
+
+
+def evaluate(progs, models, reals, ex: Explore, stats: dict):
+    """oracles over one batch; appends to ex.failures / ex.corr_diffs"""
+    for i, (p, m, r) in enumerate(zip(progs, models, reals)):
+        if 'worker_error' in r:
+            ex.corr_diffs.append({'what': 'worker failed', 'program': describe(p, 'str'), 'error': r['worker_error'][-1500:]})
+            continue
+        stats['programs'] += 1
+        stats['placements'][p['placement']] = stats['placements'].get(p['placement'], 0) + 1
+        stats['shapes'][p['shape']] = stats['shapes'].get(p['shape'], 0) + 1
+        first_vec = {}
+        for v in VARIANTS:
+            rv, mv = r['variants'][v], m[v]
+            if not crash_matches(rv['crash'], mv['crash']):
+                ex.corr_diffs.append({'what': 'program end differs', 'variant': v, 'program': describe(p, v),
+                                      'real': rv['crash'], 'model': mv['crash'], 'stmts': p['stmts']})
+            kind = 'ran' if rv['crash'] is None else ('decor-fwdref' if 'BeartypeDecorHintForwardRefException' in rv['crash']['mro']
+                                                      else rv['crash']['exc'])
+            stats['ends'][f'{v}:{kind}'] = stats['ends'].get(f'{v}:{kind}', 0) + 1
+            if rv['crash'] is not None and v != 'eval' and 'NameError' in rv['crash']['mro']:
+                # a string / postponed annotation must never make the DEFINITION fail with a NameError
+                ex.failures.append(Failure(key=f'C07:definition-raises-NameError:{v}',
+                                           what=f'variant {v}: the definition itself raises {rv["crash"]["exc"]}: {rv["crash"]["msg"]}',
+                                           replay={'stmts': p['stmts'], 'variant': v, 'program': describe(p, v)}))
+            for tag, pr in rv['probes'].items():
+                mc = mv['calls'].get(tag)
+                ex.evaluations += sum(1 for vec in pr['actual'] for a in vec if a != '-')
+                for vec in pr['actual']:
+                    for a in vec:
+                        stats['outcomes'][a[0]] = stats['outcomes'].get(a[0], 0) + 1
+                if mc is None:
+                    ex.corr_diffs.append({'what': 'probe executed that the model never reaches', 'variant': v, 'tag': tag,
+                                          'program': describe(p, v), 'stmts': p['stmts']})
+                    continue
+                odd = sorted({a for vec in pr['actual'] for a in vec if a.startswith('X:')})
+                if odd:
+                    ex.failures.append(Failure(
+                        key=f'C07:foreign-exception:{odd[0][2:]}',
+                        what=f'variant {v} probe {tag}: a check raised {odd} (neither a violation nor a beartype forward-reference exception)',
+                        replay={'stmts': p['stmts'], 'variant': v, 'tag': tag, 'program': describe(p, v)}))
+                    continue
+                # ---- correspondence: the implementation model predicts the real vector and proxy cache
+                if pr.get('impl') is None:
+                    ex.corr_diffs.append({'what': 'implementation-model hint cannot be built', 'variant': v, 'tag': tag,
+                                          'term': mc['impl'], 'error': pr.get('impl_err'), 'program': describe(p, v), 'stmts': p['stmts']})
+                else:
+                    bad = cmp_vectors(pr['actual'], pr['impl'], pr['impl_free'])
+                    if bad:
+                        ex.corr_diffs.append({'what': 'verdicts differ from the implementation model', 'variant': v, 'tag': tag,
+                                              'first': bad[:4], 'model_hint': mc['impl'], 'program': describe(p, v), 'stmts': p['stmts']})
+                    rc = sorted({tuple(c) for c in pr['cache']})
+                    mcache = sorted({tuple(c) for c in mc['cache']})
+                    if not set(rc) <= set(mcache) or dict(rc) != {k: w for k, w in mcache if k in dict(rc)}:
+                        ex.corr_diffs.append({'what': 'resolved-proxy cache differs from the model', 'variant': v, 'tag': tag,
+                                              'real': rc, 'model': mcache, 'program': describe(p, v), 'stmts': p['stmts']})
+                    else:
+                        ex.traces_validated += 1
+                        stats['cache_equal'] += rc == mcache
+                        stats['cache_subset'] += rc != mcache
+                # ---- the property: the real vector is the vector of the SPECIFIED hint
+                if pr.get('spec') is None:
+                    ex.corr_diffs.append({'what': 'specified hint cannot be built', 'variant': v, 'tag': tag, 'term': mc['spec'],
+                                          'error': pr.get('spec_err'), 'program': describe(p, v), 'stmts': p['stmts']})
+                    continue
+                bads = cmp_vectors(pr['actual'], pr['spec'], pr['spec_free'])
+                if bads:
+                    if mc['impl'] != mc['spec']:
+                        key = simple_key(p, v, tag, mc['impl'], mc['spec'])
+                    else:
+                        key = f'C07:unpredicted:{p["placement"]}:{p["shape"]}'
+                    d, oi, a, e = bads[0]
+                    ex.failures.append(Failure(
+                        key=key,
+                        what=f'{p["placement"]} placement, variant {v}, probe {tag}: object #{oi} {objspecs_of(p["stmts"])[oi]} under draw '
+                             f'{DRAWS[d]} gives {a}, the annotation written as evaluated objects gives {e} '
+                             f'(checked hint {mc["impl"]}; specified {mc["spec"]})',
+                        replay={'stmts': p['stmts'], 'variant': v, 'tag': tag, 'object': oi, 'draw': DRAWS[d], 'real': a, 'expected': e,
+                                'impl': mc['impl'], 'spec': mc['spec'], 'program': describe(p, v)}))
+                    stats['deviations'][key] = stats['deviations'].get(key, 0) + 1
+                elif mc['impl'] != mc['spec']:
+                    stats['invisible_deviations'] += 1
+                # ---- the variants agree with each other
+                sig = json.dumps(pr['actual'])
+                if v != 'eval' or rv['crash'] is None:
+                    if tag in first_vec and first_vec[tag][1] != sig and not bads and not first_vec[tag][2]:
+                        ex.failures.append(Failure(
+                            key=f'C07:variants-differ:{first_vec[tag][0]}/{v}',
+                            what=f'probe {tag}: variants {first_vec[tag][0]} and {v} of the same program give different verdict vectors',
+                            replay={'stmts': p['stmts'], 'variant': v, 'tag': tag, 'program': describe(p, v)}))
+                    first_vec.setdefault(tag, (v, sig, bool(bads)))
+                # distinct non-trivial cases
+                if mc['impl'].__repr__().find('obj') >= 0:
+                    acc = any(a == 'A' for vec in pr['actual'] for a in vec)
+                    rej = any(a == 'R' for vec in pr['actual'] for a in vec)
+                    if acc and rej:
+                        stats['nontrivial'].add((p['placement'], p['shape'], v, json.dumps(mc['impl']), len(p['stmts'])))
+
+
+# ---------------------------------------------------------------------------
+# corpus: hand-written abstract programs that are always run
+# ---------------------------------------------------------------------------
+def corpus() -> list:
+    out = []
+
+    def prog(name, stmts, shape='corpus'):
+        out.append({'stmts': stmts, 'placement': name, 'shape': shape})
+    # DESIGN §4 C07 candidate: a lazily resolved reference to a PEP hint
+    prog('corpus-lazy-pep-hint', [['def', 500, 'f', N('IntList'), True], ['probe', 'p1', 500],
+                                  ['alias', 'IntList', S(N('list'), N('int'))], ['probe', 'p2', 500], ['probe', 'p3', 500]])
+    prog('corpus-lazy-pep-hint-nested', [['def', 500, 'f', S(N('list'), N('IntList')), True],
+                                         ['alias', 'IntList', S(N('list'), N('int'))], ['probe', 'p1', 500]])
+    # self reference and mutual recursion at module level
+    prog('corpus-mutual', [['class', 'A', 101, 901, False, [['def', 500, 'm', O(N('B'), L('none')), True]]],
+                           ['class', 'B', 102, 902, False, [['def', 501, 'm', S(N('list'), N('A')), True]]],
+                           ['probe', 'p1', 500], ['probe', 'p2', 501]])
+    prog('corpus-mutual-called-early', [['class', 'A', 101, 901, False, [['def', 500, 'm', O(N('B'), L('none')), True]]],
+                                        ['probe', 'p1', 500],
+                                        ['class', 'B', 102, 902, False, [['def', 501, 'm', S(N('list'), N('A')), True]]],
+                                        ['probe', 'p2', 500], ['probe', 'p3', 501]])
+    prog('corpus-self', [['class', 'A', 101, 901, False, [['def', 500, 'm', S(N('Optional'), N('A')), True], ['probe', 'p1', 500]]],
+                         ['probe', 'p2', 500]])
+    prog('corpus-self-cdeco', [['class', 'A', 101, 901, True, [['def', 500, 'm', S(N('dict'), N('str'), N('A')), False]]],
+                               ['probe', 'p1', 500]])
+    # nested class names
+    prog('corpus-nested-name-late', [['def', 500, 'f', S(N('list'), A(N('Out'), 'In')), True], ['probe', 'p1', 500],
+                                     ['cls', 'Out', 101, None, [['In', 102]]], ['probe', 'p2', 500]])
+    prog('corpus-nested-self', [['class', 'C', 101, 901, False, [
+        ['class', 'D', 102, 902, False, [['def', 500, 'm', A(N('C'), 'D'), True]]]]], ['probe', 'p1', 500]])
+    # a class decorated inside a function, then a second callable decorated in the same function: the class
+    # attributes must not leak into the second forward scope (nor into the function's locals)
+    prog('corpus-class-locals-leak', [['alias', 'T', N('str')], ['func', 'outer', 903, [
+        ['class', 'C', 101, 901, True, [['alias', 'T', N('int')], ['def', 500, 'm', N('T'), False]]],
+        ['def', 501, 'g', S(N('list'), N('T')), True], ['probe', 'p1', 501], ['probe', 'p2', 500]]], ['probe', 'p3', 501]])
+    # scope order: closure local over global over builtin; class attribute over both
+    prog('corpus-scope-order-closure', [['alias', 'bytes', N('str')], ['alias', 'T', N('str')], ['func', 'outer', 903, [
+        ['alias', 'T', N('int')], ['def', 500, 'f', S(N('tuple'), N('T'), N('bytes')), True], ['probe', 'p1', 500]]],
+        ['probe', 'p2', 500]])
+    prog('corpus-scope-order-class', [['alias', 'T', N('str')], ['func', 'outer', 903, [
+        ['alias', 'T', N('float')],
+        ['class', 'C', 101, 901, False, [['alias', 'T', N('int')], ['def', 500, 'm', S(N('list'), N('T')), True]]],
+        ['probe', 'p1', 500]]], ['probe', 'p2', 500]])
+    prog('corpus-scope-order-class-cdeco', [['alias', 'T', N('str')], ['func', 'outer', 903, [
+        ['alias', 'T', N('float')],
+        ['class', 'C', 101, 901, True, [['alias', 'T', N('int')], ['def', 500, 'm', S(N('list'), N('T')), False]]],
+        ['probe', 'p1', 500]]], ['probe', 'p2', 500]])
+    # closure: define after decoration, call inside the frame and after it returned
+    prog('corpus-closure-late', [['func', 'outer', 903, [['def', 500, 'f', S(N('list'), N('Later')), True], ['probe', 'p1', 500],
+                                                           ['cls', 'Later', 101, None, []], ['probe', 'p2', 500]]], ['probe', 'p3', 500]])
+    # unresolved then recovered, repeatedly
+    prog('corpus-recover', [['def', 500, 'f', O(N('int'), N('Later')), True], ['probe', 'p1', 500], ['probe', 'p2', 500],
+                            ['cls', 'Later', 101, None, []], ['probe', 'p3', 500], ['probe', 'p4', 500]])
+    return out
+
+
+# ---------------------------------------------------------------------------
+# exploration
+# ---------------------------------------------------------------------------
+RULE = ('generated programs: one @beartype-checked callable at module level / in (nested) class bodies (method- or class-level '
+        'decoration) / in closures (depth 1-2, classes in functions), annotation = 16 one-leaf and 5 two-leaf hint shapes over user '
+        'classes, nested-class names, aliases of classes / PEP hints / unions, helper-module attributes, self references; every leaf '
+        'bound before the decoration, after it, or never, in module / enclosing-function / class scope, with shadowing bindings; 4 '
+        'variants (evaluated, whole string, from __future__ import annotations, strings at the names); probes inside the defining '
+        'frame, after it returned, after each late definition, at module end; each probe = verdict vector over 19 base objects + 16 '
+        'per class (instance, subclass instance, same-named decoy, containers) under forced draws 0 and 1. '
+        'non-trivial = (placement, shape, variant, checked hint) whose vector holds an accept AND a reject')
+
+
+def new_stats() -> dict:
+    return {'programs': 0, 'placements': {}, 'shapes': {}, 'ends': {}, 'outcomes': {}, 'deviations': {}, 'invisible_deviations': 0,
+            'cache_equal': 0, 'cache_subset': 0, 'nontrivial': set()}
+
+
+def explore(ck: Check, n: int, seed: int, with_corpus: bool = True, bear_every: int = 0) -> Explore:
+    rng = random.Random(seed)
+    ex = Explore(rule=RULE)
+    stats = new_stats()
+    progs = (corpus() if with_corpus else []) + [gen_program(rng) for _ in range(n)]
+    models = run_model(progs)
+    reals = run_real(progs, models, bear_every=bear_every)
+    evaluate(progs, models, reals, ex, stats)
+    bear_tie(progs, models, reals, ex, stats)
+    source_tie(progs, ex, stats)
+    ex.distinct_nontrivial = len(stats.pop('nontrivial'))
+    ex.extra.update({k: v for k, v in stats.items()})
+    ex.samples = [{'placement': p['placement'], 'shape': p['shape'], 'program': describe(p, 'str')} for p in progs[-3:]]
+    return ex
+
+
+def bear_tie(progs, models, reals, ex: Explore, stats: dict):
+    """second derivation of the expected vectors: the Bear model's `chk` (Lean) on the hint the C07 model predicts"""
+    from ..bear.corr import model_run
+    cases, where = [], []
+    for i, (p, r) in enumerate(zip(progs, reals)):
+        if 'worker_error' in r:
+            continue
+        for v in VARIANTS:
+            for tag, pr in r['variants'][v]['probes'].items():
+                b = pr.get('bear')
+                if not b:
+                    continue
+                for hi, hm in enumerate(b['hints']):
+                    for oi, om in enumerate(b['objs']):
+                        if om is not None:
+                            cases.append((b['world'], hm, om))
+                            where.append((i, v, tag, hi, oi))
+    stats['bear_cases'] = len(cases)
+    if not cases:
+        return
+    res = bear_model_run(cases)
+    table: dict = {}
+    for (i, v, tag, hi, oi), rr in zip(where, res):
+        table.setdefault((i, v, tag), {}).setdefault(oi, {})[hi] = rr
+    ndiff = 0
+    for (i, v, tag), per_obj in table.items():
+        pr = reals[i]['variants'][v]['probes'][tag]
+        if pr.get('impl') is None:
+            continue
+        for oi, by_hint in per_obj.items():
+            for d in range(len(DRAWS)):
+                vals = [by_hint[h][d] if by_hint.get(h) is not None else None for h in sorted(by_hint)]
+                if any(x is None for x in vals):
+                    continue
+                exp = ('A' if vals[0] else 'R') if len(set(vals)) == 1 else 'F'
+                if pr['impl'][d][oi] != exp:
+                    ndiff += 1
+                    if ndiff <= 3:
+                        ex.corr_diffs.append({'what': 'Bear model chk differs from the reference callable on the predicted hint',
+                                              'variant': v, 'tag': tag, 'object': oi, 'draw': DRAWS[d], 'bear': exp,
+                                              'reference': pr['impl'][d][oi], 'program': describe(progs[i], v)})
+    stats['bear_diffs'] = ndiff
+
+
+def bear_model_run(cases: list) -> list:
+    """[(world, hint model, object model)] -> [[chk per draw] | None]"""
+    lines = []
+    cache: dict = {}
+    for world, hm, om in cases:
+        k = id(world)
+        if k not in cache:
+            cache[k] = sexp(world)
+        lines.append(f'(run {cache[k]} true {sexp(DRAWS)} {sexp(hm)} {sexp(om)})')
+    out = []
+    for line in lean_driver(lines, 'Bear', exe='beardriver'):
+        v = parse_sexp(line)
+        out.append(None if v[0] != 'ok' else [c == 'true' for c, _ in v[1][1:]])
+    return out
+
+
+def source_tie(progs, ex: Explore, stats: dict):
+    """the printer of the source language against CPython's parser: ast.parse(render(e)) must be the tree of e"""
+    import ast
+
+    def tree(node):
+        if isinstance(node, ast.Name):
+            return N(node.id)
+        if isinstance(node, ast.Attribute):
+            return A(tree(node.value), node.attr)
+        if isinstance(node, ast.Subscript):
+            sl = node.slice
+            return ['s', tree(node.value), [tree(x) for x in (sl.elts if isinstance(sl, ast.Tuple) else [sl])]]
+        if isinstance(node, ast.BinOp) and isinstance(node.op, ast.BitOr):
+            return O(tree(node.left), tree(node.right))
+        if isinstance(node, ast.Constant):
+            c = node.value
+            if c is None:
+                return L('none')
+            if c is Ellipsis:
+                return L('ellipsis')
+            if isinstance(c, bool):
+                return L(['b', 'true' if c else 'false'])
+            if isinstance(c, int):
+                return L(['i', c])
+            return ['strlit', c]
+        raise ValueError(ast.dump(node))
+
+    def same(e, t):
+        if e[0] == 'q':
+            return t[0] == 'strlit' and same(e[1], tree(ast.parse(t[1], mode='eval').body))
+        if e[0] == 'l' and not isinstance(e[1], str) and e[1][0] == 'str':
+            return t == ['strlit', e[1][1]]
+        if e[0] != t[0]:
+            return False
+        if e[0] == 'n':
+            return e[1] == t[1]
+        if e[0] == 'a':
+            return e[2] == t[2] and same(e[1], t[1])
+        if e[0] == 's':
+            return same(e[1], t[1]) and len(e[2]) == len(t[2]) and all(same(x, y) for x, y in zip(e[2], t[2]))
+        if e[0] == 'o':
+            return same(e[1], t[1]) and same(e[2], t[2])
+        return e == t
+    n = 0
+    for p in progs:
+        for st in all_defs(p['stmts']):
+            for v in VARIANTS:
+                e = variant_expr(st[3], v)
+                n += 1
+                try:
+                    ok = same(e, tree(ast.parse(render(e), mode='eval').body))
+                except Exception as exn:                    # noqa: BLE001
+                    ok = False
+                    e = [e, repr(exn)]
+                if not ok:
+                    ex.corr_diffs.append({'what': 'printed annotation does not parse back to the expression', 'expr': e,
+                                          'text': render(e) if isinstance(e[0], str) else None})
+    stats['printed_annotations_parsed_back'] = n
+
+
+def all_defs(stmts):
+    for st in stmts:
+        if st[0] == 'def':
+            yield st
+        elif st[0] == 'func':
+            yield from all_defs(st[3])
+        elif st[0] == 'class':
+            yield from all_defs(st[5])
+
+
+# ---------------------------------------------------------------------------
+# canonical keys and shrinking
+# ---------------------------------------------------------------------------
+VISIBLE = {'global/pre', 'direct-fn/pre', 'direct-cls/pre'}
+
+
+def where_class(tokens: set) -> str:
+    """V = bound before the decoration in a scope the forward scope is documented to consult (module, directly
+    enclosing function / class); G = bound at module level after the decoration; S = the class being defined;
+    U = never bound; H = anything else (outer enclosing scopes, late local / class-attribute bindings)"""
+    out = set()
+    for t in tokens:
+        if t in VISIBLE:
+            out.add('V')
+        elif t == 'global/post':
+            out.add('G')
+        elif t.startswith('self-class'):
+            out.add('S')
+        else:
+            out.add('H')
+    return '+'.join(sorted(out)) or 'U'
+
+
+def signature(prog, variant, tag, impl, spec):
+    fid = probe_fid(prog['stmts'], tag)
+    chain, d = scope_chain(prog['stmts'], fid)
+    dv = leaves_diff(impl, spec)
+    if dv is None:
+        return None
+    path, a, b = dv
+    e = expr_at(variant_expr(d[3], variant), path)
+    name = chain_root(e) if is_chain(e) else '?'
+    dotted = 'dotted' if e[0] == 'a' else 'bare'
+    binds = binds_of(prog['stmts'], name, [(k, n) for k, n, _ in chain], fid)
+    aa = a[0] if a[0] in ('unres', 'fake', 'via') else 'bound'
+    bb = b[0] if b[0] in ('unres', 'fake', 'via') else 'bound'
+    return (aa, bb, dotted, where_class({f'{w}/{t}' for w, t, _ in binds}), e)
+
+
+def key_of(sig) -> str:
+    return f'C07:{sig[0]}-instead-of-{sig[1]}:{sig[2]}:{sig[3]}'
+
+
+def simple_key(prog, variant, tag, impl, spec) -> str:
+    return key_of(signature(prog, variant, tag, impl, spec))
+
+
+def removable_positions(stmts, keep_tag, keep_fid, prefix=()):
+    """index paths of statements that may be dropped (not the probed def, not a scope containing it)"""
+    out = []
+    for i, st in enumerate(stmts):
+        here = prefix + (i,)
+        if st[0] in ('cls', 'alias'):
+            out.append(here)
+        elif st[0] == 'probe' and st[1] != keep_tag:
+            out.append(here)
+        elif st[0] == 'def' and st[1] != keep_fid:
+            out.append(here)
+        elif st[0] == 'func':
+            out += removable_positions(st[3], keep_tag, keep_fid, here + (3,))
+        elif st[0] == 'class':
+            out += removable_positions(st[5], keep_tag, keep_fid, here + (5,))
+    return out
+
+
+def drop_at(stmts, pos):
+    stmts = copy.deepcopy(stmts)
+    cur = stmts
+    for p in pos[:-1]:
+        cur = cur[p]
+    del cur[pos[-1]]
+    return stmts
+
+
+def set_hint(stmts, fid, hint):
+    stmts = copy.deepcopy(stmts)
+
+    def walk(sts):
+        for st in sts:
+            if st[0] == 'def' and st[1] == fid:
+                st[3] = hint
+            elif st[0] == 'func':
+                walk(st[3])
+            elif st[0] == 'class':
+                walk(st[5])
+    walk(stmts)
+    return stmts
+
+
+def still_refers(stmts, fid) -> bool:
+    """dropping a def must not orphan a probe"""
+    fids = {st[1] for st in all_defs(stmts)}
+
+    def probes(sts):
+        for st in sts:
+            if st[0] == 'probe':
+                yield st[2]
+            elif st[0] == 'func':
+                yield from probes(st[3])
+            elif st[0] == 'class':
+                yield from probes(st[5])
+    return all(f in fids for f in probes(stmts))
+
+
+def shrink_predicted(jobs: list) -> list:
+    """jobs = [(prog, variant, tag, impl, spec)] whose model outputs differ between implementation and specification;
+    greedy statement / hint reduction keeping the same kind of deviation, decided by the MODEL (all jobs in lock
+    step, one driver call per round; a round tries every single removal plus all of the last round's individually
+    successful removals at once)"""
+    cur = [[prog, signature(prog, variant, tag, impl, spec), []] for prog, variant, tag, impl, spec in jobs]
+    for _ in range(8):
+        cands, owner, what = [], [], []
+        for j, (prog, sig, combo) in enumerate(cur):
+            variant, tag = jobs[j][1], jobs[j][2]
+            fid = probe_fid(prog['stmts'], tag)
+            _, d = scope_chain(prog['stmts'], fid)
+            alts = []
+            if sig is not None and d[3] != sig[4]:
+                alts.append(('hint', set_hint(prog['stmts'], fid, sig[4])))
+            poss = removable_positions(prog['stmts'], tag, fid)
+            if len(combo) > 1:
+                st = prog['stmts']
+                for pos in sorted(combo, reverse=True):          # later positions first: earlier ones stay valid
+                    st = drop_at(st, pos)
+                alts.append(('combo', st))
+            alts += [(pos, drop_at(prog['stmts'], pos)) for pos in poss]
+            for w, st in alts:
+                if still_refers(st, fid):
+                    cands.append({**prog, 'stmts': st})
+                    owner.append(j)
+                    what.append(w)
+        if not cands:
+            break
+        res = run_model(cands)
+        passed: dict = {}
+        for c, j, w, r in zip(cands, owner, what, res):
+            variant, tag = jobs[j][1], jobs[j][2]
+            call = r[variant]['calls'].get(tag)
+            if call is None or call['impl'] == call['spec']:
+                continue
+            sig = signature(c, variant, tag, call['impl'], call['spec'])
+            if sig is not None and sig[:3] == cur[j][1][:3]:
+                passed.setdefault(j, []).append((w, c, sig))
+        if not passed:
+            break
+        for j, lst in passed.items():
+            pick = next((x for x in lst if x[0] == 'combo'), None) or next((x for x in lst if x[0] == 'hint'), None) or lst[0]
+            singles = [x[0] for x in lst if isinstance(x[0], tuple)]
+            # positions shift after a removal: the combination is only reused when nothing was applied this round
+            if pick[0] in ('combo', 'hint') or len(singles) < 2:
+                cur[j] = [pick[1], pick[2], []]
+            else:
+                cur[j] = [cur[j][0], cur[j][1], singles]
+    return [c[0] for c in cur]
+
+
+def check_one(prog, variant, tag, model=None, real=None):
+    """(property broken on this probe?, detail) — the oracle of `evaluate` for a single probe"""
+    model = model or run_model([prog])[0]
+    real = real or run_real([prog], [model])[0]
+    if 'worker_error' in real:
+        return None, {'worker_error': real['worker_error']}
+    pr = real['variants'][variant]['probes'].get(tag)
+    mc = model[variant]['calls'].get(tag)
+    if pr is None or mc is None or pr.get('spec') is None:
+        return None, {'real_end': real['variants'][variant]['crash'], 'model_end': model[variant]['crash']}
+    bads = cmp_vectors(pr['actual'], pr['spec'], pr['spec_free'])
+    return bool(bads), {'bads': bads, 'impl': mc['impl'], 'spec': mc['spec'], 'actual': pr['actual'], 'expected': pr['spec'],
+                        'impl_model_vector': pr.get('impl')}
+
+
+def canonicalise(ex: Explore):
+    """shrink every distinct failure; the key of a failure is the key of its shrunk program"""
+    by_key: dict = {}
+    for f in ex.failures:
+        by_key.setdefault(f.key, f)
+    pred = [f for f in by_key.values() if '-instead-of-' in f.key and 'impl' in f.replay]
+    jobs = [({'stmts': f.replay['stmts'], 'placement': 'shrunk', 'shape': 'shrunk'}, f.replay['variant'], f.replay['tag'],
+             f.replay['impl'], f.replay['spec']) for f in pred]
+    shrunk = shrink_predicted(jobs) if jobs else []
+    models = run_model(shrunk) if shrunk else []
+    reals = run_real(shrunk, models) if shrunk else []
+    out: dict = {}
+    for f, sp, m, r, (_, variant, tag, _i, _s) in zip(pred, shrunk, models, reals, jobs):
+        broken, det = check_one(sp, variant, tag, m, r)
+        if broken:
+            mc = m[variant]['calls'][tag]
+            key = simple_key(sp, variant, tag, mc['impl'], mc['spec'])
+            d, oi, a, e = det['bads'][0]
+            nf = Failure(key=key,
+                         what=f'variant {variant}, probe {tag} of the shrunk program: object #{oi} {objspecs_of(sp["stmts"])[oi]} under draw '
+                              f'{DRAWS[d]} gives {a}, the annotation written as evaluated objects gives {e} '
+                              f'(checked hint {mc["impl"]}; specified {mc["spec"]})',
+                         replay={'stmts': sp['stmts'], 'variant': variant, 'tag': tag, 'object': oi, 'draw': DRAWS[d], 'real': a,
+                                 'expected': e, 'program': describe(sp, variant), 'unshrunk_program': f.replay['program']})
+            out.setdefault(key, nf)
+        else:
+            out.setdefault(f.key, f)
+    for f in by_key.values():
+        if f not in pred:
+            out.setdefault(f.key, f)
+    ex.failures = list(out.values())
+
+
+def replay(data: dict) -> int:
+    prog = {'stmts': data['stmts'], 'placement': 'replay', 'shape': 'replay'}
+    variant, tag = data.get('variant', 'str'), data.get('tag')
+    print(describe(prog, variant))
+    model = run_model([prog])[0]
+    real = run_real([prog], [model])[0]
+    if 'worker_error' in real:
+        print('worker failed:', real['worker_error'])
+        return 2
+    print('beartype under test:', real.get('beartype_file'))
+    rv = real['variants'][variant]
+    if rv['crash']:
+        print(f'variant {variant}: module execution ends with {rv["crash"]["exc"]} at line {rv["crash"]["line"]}: {rv["crash"]["msg"][:200]}')
+        if data.get('key', '').startswith('C07:definition-raises'):
+            return 1
+    if tag is None:
+        return 0
+    broken, det = check_one(prog, variant, tag, model, real)
+    if broken is None:
+        print('probe not reached:', det)
+        return 0
+    objs = objspecs_of(prog['stmts'])
+    print(f'probe {tag}, variant {variant}: hint checked by the implementation (model): {det["impl"]}')
+    print(f'                                 hint the annotation denotes (specification): {det["spec"]}')
+    for d, oi, a, e in det['bads'][:8]:
+        print(f'  object #{oi} {objs[oi]} draw {DRAWS[d]}: real {a}   expected {e}')
+    odd = sorted({a for vec in det['actual'] for a in vec if a.startswith('X:')})
+    if odd:
+        print('  foreign exceptions:', odd)
+        return 1
+    if not broken:
+        print('replay: the real verdicts equal those of the evaluated annotation (not reproduced)')
+        return 0
+    return 1
+
+
+def main(ck: Check) -> int:
+    quick = ck.tier == 'quick'
+    proof = ck.prove(MODULE, PROP_FILE)
+    ex = explore(ck, n=230 if quick else 2400, seed=ck.seed, bear_every=6 if quick else 4)
+    canonicalise(ex)
+    ck.decide(proof, ex, deep_search=lambda: deep(ck))
+    ck.evidence(proof, ex,
+                level_note='PARTIAL: the theorems cover the resolution LOGIC (scope layering, proxy state machine, histories); frame '
+                           'introspection, eval of strings and the check of the resolved hint are modelled (environment abstraction, '
+                           'Bear core) and tied behaviourally on every run',
+                assumptions=['single module; names are rebound at most once (a rebinding after a successful resolution is not modelled)',
+                             'CPython 3.12 only (PEP 649/749 lazily evaluated annotations are not exercised)',
+                             'a probe applies enough objects that every proxy of the hint is needed (the model forces all of them)',
+                             'proxies are identified by (decorated callable, dotted name, parent code object)'])
+    return ck.finish()
+
+
+def deep(ck: Check) -> Explore:
+    ex = explore(ck, n=1200, seed=ck.seed + 1, bear_every=0)
+    canonicalise(ex)
+    return ex
